@@ -49,6 +49,8 @@ type c16Turn struct {
 	Meta  [][2]string `json:"meta,omitempty"` // emit metadata, distinct keys
 	Err   *ErrSpec    `json:"err,omitempty"`
 	Peek  bool        `json:"peek,omitempty"`
+	// LateLogs: out.ClientLog calls made AFTER the first successful Emit of the turn
+	LateLogs []LogSpec `json:"late_logs,omitempty"`
 }
 
 type c16In struct {
@@ -56,6 +58,9 @@ type c16In struct {
 	Cancel string    `json:"cancel"` // none (state has no OnCancel) | ok | err | panic
 	Cache  bool      `json:"cache"`  // call-state cache enabled (default) or SetCallStateCacheEntries(0)
 	Ops    []c16Op   `json:"ops"`
+	// Prod: the stream is a PRODUCER (method c16p, producer batch limit 1: one
+	// Produce per request, turn 0 inside /init) instead of an exchange (c16x)
+	Prod bool `json:"prod,omitempty"`
 }
 
 // ---------------------------------------------------------------- scripted state
@@ -86,6 +91,14 @@ func c16MD(m arrow.Metadata) ([]string, []string) {
 }
 
 func (st *C16State) Exchange(ctx context.Context, in arrow.RecordBatch, out *vgirpc.OutputCollector, cc *vgirpc.CallContext) error {
+	return st.turn("exchange", in, out, cc)
+}
+
+func (st *C16State) Produce(ctx context.Context, out *vgirpc.OutputCollector, cc *vgirpc.CallContext) error {
+	return st.turn("produce", nil, out, cc)
+}
+
+func (st *C16State) turn(kind string, in arrow.RecordBatch, out *vgirpc.OutputCollector, cc *vgirpc.CallContext) error {
 	sf := surfaceByID(st.SID)
 	t := c16Turn{Act: "emit"}
 	if st.Pos < len(st.Turns) {
@@ -96,7 +109,7 @@ func (st *C16State) Exchange(ctx context.Context, in arrow.RecordBatch, out *vgi
 	insum := sumInt64Col(in)
 	var seen c16Seen
 	seen.Keys, seen.Vals = c16MD(cc.InputMetadata)
-	if t.Peek {
+	if t.Peek && in != nil {
 		seen.Peek = true
 		if bm, ok := in.(arrow.RecordBatchWithMetadata); ok {
 			seen.BKeys, seen.BVals = c16MD(bm.Metadata())
@@ -108,17 +121,32 @@ func (st *C16State) Exchange(ctx context.Context, in arrow.RecordBatch, out *vgi
 	for k, v := range cc.Cookies {
 		seen.Reach = append(seen.Reach, k, v)
 	}
-	sk, sv := c16MD(in.Schema().Metadata())
-	seen.Reach = append(append(seen.Reach, sk...), sv...)
+	if in != nil {
+		sk, sv := c16MD(in.Schema().Metadata())
+		seen.Reach = append(append(seen.Reach, sk...), sv...)
+	}
 	if sf != nil {
 		js, _ := json.Marshal(seen)
-		sf.trace("exchange#%d(in=%d)", pos, insum)
+		if kind == "produce" {
+			sf.trace("produce#%d", pos)
+		} else {
+			sf.trace("exchange#%d(in=%d)", pos, insum)
+		}
 		sf.trace("seen %s", js)
 	}
 	for _, l := range t.Logs {
 		out.ClientLog(vgirpc.LogLevel(l.Level), l.Msg, kvs(l.Extras)...)
 	}
-	emit := func(rows int) error {
+	lateRaised := false
+	emit := func(rows int) (err error) {
+		defer func() {
+			if err == nil && !lateRaised {
+				lateRaised = true
+				for _, l := range t.LateLogs {
+					out.ClientLog(vgirpc.LogLevel(l.Level), l.Msg, kvs(l.Extras)...)
+				}
+			}
+		}()
 		var vals []int64
 		if rows > 0 {
 			vals = []int64{t.Value + insum}
@@ -187,6 +215,15 @@ func newC16Server(sf *Surface, in c16In) *vgirpc.Server {
 			st = &C16StateC{base}
 		}
 		return &vgirpc.StreamResult{OutputSchema: outSchemaV, State: st, InputSchema: inSchemaX}, nil
+	})
+	vgirpc.Producer(s, "c16p", outSchemaV, func(_ context.Context, cc *vgirpc.CallContext, p PInt) (*vgirpc.StreamResult, error) {
+		sf.trace("c16x.init")
+		base := C16State{SID: sf.ID, Turns: in.Turns, CAct: in.Cancel}
+		var st any = &base
+		if in.Cancel != "none" {
+			st = &C16StateC{base}
+		}
+		return &vgirpc.StreamResult{OutputSchema: outSchemaV, State: st}, nil
 	})
 	return s
 }
@@ -318,11 +355,21 @@ func (c *c16Run) do(sf *Surface, path string, body []byte, reqKeys, reqVals []st
 			}
 		}
 	}
-	cur, call := vgirpc.FindStreamTokens(resp.Body)
-	if call != nil && c.call == "" {
-		c.call = string(call)
+	cur, _ := vgirpc.FindStreamTokens(resp.Body)
+	// the call token is read off the batches themselves: FindStreamTokens stops at the first
+	// stream-state value, which a handler's emit metadata can put in front of the token batch
+	for _, st := range streams {
+		for _, f := range st.Frames {
+			for _, p := range f.Meta {
+				if p[0] == vgirpc.MetaCallState && p[1] != "" {
+					r.HasCall = true
+					if c.call == "" {
+						c.call = p[1]
+					}
+				}
+			}
+		}
 	}
-	r.HasCall = call != nil
 	if cur != nil {
 		v := c.label(string(cur))
 		r.First = &v
@@ -390,8 +437,13 @@ func c16Exec(in c16In) []c16Resp {
 	if !in.Cache {
 		h.SetCallStateCacheEntries(0)
 	}
+	method := "c16x"
+	if in.Prod {
+		method = "c16p"
+		h.SetProducerBatchLimit(1)
+	}
 	c := &c16Run{h: h}
-	out := []c16Resp{c.do(sf, "/c16x/init", ReqBytes(PIntBatch(1), StdMeta("c16x", "", "")), nil, nil)}
+	out := []c16Resp{c.do(sf, "/"+method+"/init", ReqBytes(PIntBatch(1), StdMeta(method, "", "")), nil, nil)}
 	for _, op := range in.Ops {
 		meta := make([][2]string, len(op.Meta))
 		keys := make([]string, len(op.Meta))
@@ -404,7 +456,7 @@ func c16Exec(in c16In) []c16Resp {
 		if op.Body == "tick" {
 			schema = c11Empty
 		}
-		out = append(out, c.do(sf, "/c16x/exchange", c11InputStream(schema, [][]int64{op.Vals}, meta), keys, vals))
+		out = append(out, c.do(sf, "/"+method+"/exchange", c11InputStream(schema, [][]int64{op.Vals}, meta), keys, vals))
 	}
 	return out
 }
@@ -447,7 +499,8 @@ func c16CoqTurn(t c16Turn) string {
 		act = App("C16.AErr", c16Failure(t.Err))
 	}
 	logs := ListOf(t.Logs, func(l LogSpec) string { return App("C04.Build_logmsg", B(l.Level), B(l.Msg), c04KV(l.Extras)) })
-	return App("C16.Build_tscript", logs, act, Z(t.Value), c04KV(t.Meta), Bool(t.Peek))
+	late := ListOf(t.LateLogs, func(l LogSpec) string { return App("C04.Build_logmsg", B(l.Level), B(l.Msg), c04KV(l.Extras)) })
+	return App("C16.Build_tscript", logs, act, Z(t.Value), c04KV(t.Meta), Bool(t.Peek), late)
 }
 
 func c16CoqInput(in c16In) string {
@@ -460,13 +513,16 @@ func c16CoqInput(in c16In) string {
 		}
 		return App("C16.Build_op", meta, body)
 	})
-	return App("C16.Build_input", ListOf(in.Turns, c16CoqTurn), canc, Bool(in.Cache), ops)
+	return App("C16.Build_input", ListOf(in.Turns, c16CoqTurn), canc, Bool(in.Cache), ops, Bool(in.Prod))
 }
 
 func c16CoqTrace(e string) string {
 	var a, b int64
 	if n, _ := fmt.Sscanf(e, "exchange#%d(in=%d)", &a, &b); n == 2 {
 		return App("C16.TEx", N(uint64(a)), Z(b))
+	}
+	if n, _ := fmt.Sscanf(e, "produce#%d", &a); n == 1 {
+		return App("C16.TProd", N(uint64(a)))
 	}
 	if n, _ := fmt.Sscanf(e, "cancel@%d", &a); n == 1 {
 		return App("C16.TCancel", N(uint64(a)))
@@ -506,6 +562,17 @@ func c16CoqResp(r c16Resp) string {
 func c16RunCase(in c16In) CaseOut {
 	resps := c16Exec(in)
 	tags := []string{"cancel-hook-" + in.Cancel}
+	if in.Prod {
+		tags = append(tags, "producer")
+	} else {
+		tags = append(tags, "exchange")
+	}
+	for _, t := range in.Turns {
+		if len(t.LateLogs) > 0 {
+			tags = append(tags, "late-log-scripted")
+			break
+		}
+	}
 	if in.Cache {
 		tags = append(tags, "cache-on")
 	} else {
@@ -579,6 +646,14 @@ func c16RunCase(in c16In) CaseOut {
 				}
 			}
 		}
+		sawData := false
+		for _, f := range r.Frames {
+			if f.Kind == "data" && (f.Rows > 0 || !in.Prod) {
+				sawData = true
+			} else if f.Kind == "log" && sawData {
+				add("log-after-data-batch")
+			}
+		}
 		if len(r.Curs) > 0 {
 			for _, cs := range r.Curs {
 				if len(cs) > 1 {
@@ -631,6 +706,12 @@ func c16GenTurn(r *rand.Rand, failing bool) c16Turn {
 		t.Act = "emit0"
 	case 1:
 		t.Act = "emit2_ignore"
+	}
+	if r.Intn(4) == 0 {
+		t.LateLogs = c11GenLogs(r, 2)
+		if len(t.LateLogs) == 0 {
+			t.LateLogs = []LogSpec{{Level: "INFO", Msg: "late"}}
+		}
 	}
 	if failing {
 		switch r.Intn(6) {
@@ -735,11 +816,43 @@ func c16Gen(r *rand.Rand, n int, tier string) []c16In {
 	} {
 		out = append(out, c16In{Turns: []c16Turn{t, emit(2)}, Cancel: "none", Cache: true, Ops: []c16Op{c16Honest(0, []int64{4}), c16Honest(1, []int64{5})}})
 	}
+	// client logs raised AFTER the data batch was emitted: on turn 0, on later turns, several of them, with
+	// logs before as well, with and without emit metadata, on a failing turn (dropped), zero-row data batch;
+	// over an exchange stream and over a producer stream (one Produce per request, turn 0 inside /init)
+	late1 := []LogSpec{{Level: "INFO", Msg: "after-emit"}}
+	late3 := []LogSpec{{Level: "DEBUG", Msg: "late-1", Extras: [][2]string{{"k", "1"}}}, {Level: "WARN", Msg: "late-2"}, {Level: "INFO", Msg: ""}}
+	before := []LogSpec{{Level: "INFO", Msg: "before-emit"}}
+	lateTurns := [][]c16Turn{
+		{{Act: "emit", Value: 1, LateLogs: late1}, emit(2), emit(3)},
+		{emit(1), {Act: "emit", Value: 2, LateLogs: late1}, {Act: "emit", Value: 3, LateLogs: late3}},
+		{{Act: "emit", Value: 1, Logs: before, LateLogs: late3, Meta: [][2]string{{"um", "1"}, {"a", "x"}}}, {Act: "emit0", Value: 2, LateLogs: late1, Meta: [][2]string{{"um", "2"}}}, emit(3)},
+		{{Act: "emit2_ignore", Value: 1, Logs: before, LateLogs: late1}, {Act: "emit2", Value: 2, LateLogs: late1}, emit(3)},
+		{{Act: "emit", Value: 1, LateLogs: late1, Meta: [][2]string{{ss, "user-cursor"}}}, {Act: "emit_finish", Value: 2, Logs: before, LateLogs: late3}, emit(3)},
+	}
+	for _, turns := range lateTurns {
+		for _, prod := range []bool{false, true} {
+			ops := []c16Op{c16Honest(0, []int64{1}, c16Lit("a", "1")), c16Honest(1, []int64{2}), c16Honest(2, nil), c16Honest(1, []int64{4})}
+			out = append(out, c16In{Turns: turns, Cancel: "ok", Cache: true, Prod: prod, Ops: ops})
+		}
+	}
+	// producer streams: honest follow, every failing / finishing turn kind inside /init and on a continuation,
+	// cancel, replay, a tick body and a data body, user metadata around the tokens, cache off
+	for i, act := range []string{"emit", "err", "emit2", "noemit", "finish", "emit_finish", "emit0", "emit2_ignore"} {
+		t := c16Turn{Act: act, Value: 5, Logs: before}
+		if act == "err" {
+			e := c11Errs[i%len(c11Errs)]
+			t.Err = &e
+		}
+		tick := c16Op{Meta: []c16MV{c16Lit("vgi_pushdown_filters", "f1"), c16Cur(0), c16CallMV(), c16Lit("a", "2")}, Body: "tick"}
+		out = append(out, c16In{Turns: []c16Turn{t, emit(2), emit(3)}, Cancel: "ok", Cache: i%2 == 0, Prod: true, Ops: []c16Op{tick, c16Honest(1, []int64{9}), c16Honest(0, nil)}})
+		out = append(out, c16In{Turns: []c16Turn{emit(1), t, emit(3)}, Cancel: []string{"none", "err"}[i%2], Cache: i%2 == 1, Prod: true,
+			Ops: []c16Op{tick, c16Honest(1, nil), c16Honest(0, nil), {Meta: []c16MV{c16Cur(0), c16CallMV(), c16CancelMV("1")}, Body: "tick"}}})
+	}
 	// wrong body shapes
 	out = append(out, c16In{Turns: five, Cancel: "ok", Cache: true, Ops: []c16Op{{Meta: []c16MV{c16Cur(0), c16CallMV()}, Body: "tick"}, c16Honest(0, nil)}})
 	// ---- random histories
 	for len(out) < n {
-		in := c16In{Cancel: []string{"none", "ok", "ok", "err", "panic"}[r.Intn(5)], Cache: r.Intn(3) > 0}
+		in := c16In{Cancel: []string{"none", "ok", "ok", "err", "panic"}[r.Intn(5)], Cache: r.Intn(3) > 0, Prod: r.Intn(4) == 0}
 		nt := r.Intn(7)
 		failAt := -1
 		if nt > 0 && r.Intn(2) == 0 {
@@ -792,7 +905,7 @@ func c16Gen(r *rand.Rand, n int, tier string) []c16In {
 				if r.Intn(2) == 0 {
 					op.Body, op.Vals = "tick", nil
 				}
-			} else if r.Intn(20) == 0 {
+			} else if r.Intn(20) == 0 || (in.Prod && r.Intn(2) == 0) {
 				op.Body, op.Vals = "tick", nil
 			}
 			in.Ops = append(in.Ops, op)
@@ -804,6 +917,6 @@ func c16Gen(r *rand.Rand, n int, tier string) []c16In {
 }
 
 func init() {
-	Register("C16", "each case is a history against ONE exchange stream on a real HttpServer: POST /c16x/init then one POST /c16x/exchange per op; an op = ordered request metadata (literal values, references to the k-th cursor the server minted in this history, the call token) + a {x:int64} or empty-schema body; the scripted state records CallContext.InputMetadata, the input batch's own metadata when the script peeks, TransportMetadata/Cookies/schema metadata. Boundary cases first (honest 6-turn follow with cache on/off, replays of every old cursor, each failing-turn kind followed by a retry of the same cursor and a cancel, cancel at positions 0-2 x 4 hook behaviours x cancel values {1,false,empty}, 12 metadata layouts x cache on/off incl. user values under framework keys before/after the real ones, duplicates, tokens under user keys, missing tokens, a peeking handler, emit metadata under the stream-state key, zero-row emit, swallowed second emit, tick body on a data route), then random histories: 0-6 scripted turns (one failing turn of 6 kinds in 1/2, logs, emit metadata, peek 1/6), 1-9 ops with user metadata from a 10-key pool (framework-looking keys, empty key, case variants) before/between/after the tokens, replayed / unminted / shadowed / missing cursors, missing / shadowed call tokens, cancel key at a random position in 1/7 with 4 values; non-trivial = at least one request reached user code and the history has more than one op; distinct = distinct input JSON",
+	Register("C16", "each case is a history against ONE stream on a real HttpServer — an exchange stream (c16x) or, in the producer cases, a producer stream (c16p, producer batch limit 1: one Produce per request, turn 0 inside /init); scripted turns may raise client logs BEFORE and AFTER their Emit (late logs: boundary cases on turn 0 / later turns, one and several, with and without emit metadata, on failing / finishing turns, exchange and producer; 1/4 of random turns) — POST /{m}/init then one POST /{m}/exchange per op; an op = ordered request metadata (literal values, references to the k-th cursor the server minted in this history, the call token) + a {x:int64} or empty-schema body; the scripted state records CallContext.InputMetadata, the input batch's own metadata when the script peeks, TransportMetadata/Cookies/schema metadata. Boundary cases first (honest 6-turn follow with cache on/off, replays of every old cursor, each failing-turn kind followed by a retry of the same cursor and a cancel, cancel at positions 0-2 x 4 hook behaviours x cancel values {1,false,empty}, 12 metadata layouts x cache on/off incl. user values under framework keys before/after the real ones, duplicates, tokens under user keys, missing tokens, a peeking handler, emit metadata under the stream-state key, zero-row emit, swallowed second emit, tick body on a data route), then random histories: 0-6 scripted turns (one failing turn of 6 kinds in 1/2, logs, emit metadata, peek 1/6), 1-9 ops with user metadata from a 10-key pool (framework-looking keys, empty key, case variants) before/between/after the tokens, replayed / unminted / shadowed / missing cursors, missing / shadowed call tokens, cancel key at a random position in 1/7 with 4 values; non-trivial = at least one request reached user code and the history has more than one op; distinct = distinct input JSON",
 		c16Gen, c16RunCase)
 }
